@@ -135,8 +135,8 @@ class Ctx:
             raise PathEnd()
 
     def _check(self, extra):
-        r = self.solver.check(extra)
-        return r
+        from .solve import hard_check
+        return hard_check(self.solver, min(self.timeout_ms, 1500), extra)
 
     def summarize(self, thunk):
         """Term for the truth value of a pure (state-reading, possibly forking) expression: every local
@@ -156,6 +156,15 @@ class Ctx:
                     pass
                 else:
                     v = z3.BoolVal(bool(v))
+            except (AttributeError, TypeError, ValueError, KeyError, ZeroDivisionError) as e:
+                # an exception on a locally infeasible combination of branches is not a behaviour
+                s_ = z3.Solver()
+                s_.set("timeout", 2000)
+                s_.add(*loc["conds"])
+                if s_.check() != z3.unsat:
+                    self._local = saved
+                    raise EngineError(f"summarize: expression raises {type(e).__name__}: {e}")
+                v = z3.BoolVal(False)
             finally:
                 self._local = saved
             for k in range(len(forced), len(loc["taken"])):
@@ -212,9 +221,10 @@ class Ctx:
     def assume_goal(self, goal):
         """assume a goal that may contain bounded quantifiers"""
         from .logic import flatten_goal
+        from .logic import Via
         plain, qs = flatten_goal(goal)
         for p in plain:
-            self.assume(p)
+            self.assume(p.goal if isinstance(p, Via) else p)
         for q in qs:
             self.qhyps.append(q)
             if self.env is not None:
